@@ -19,7 +19,8 @@ THEOREMS = ['Dlis.C12.write_sound', 'Dlis.C12.set_record_decodes', 'Dlis.C12.nof
             'Dlis.C03.frame_data_roundtrip', 'Dlis.C16.noformat_roundtrip', 'Dlis.C12.text_rejects_non_str',
             'Dlis.C12.numeric_rejects_non_number', 'Dlis.C12.numeric_int_rejects_fraction',
             'Dlis.C12.status_rejects_other_numbers', 'Dlis.C12.reference_rejects_other_type',
-            'Dlis.C12.rejected_assignment_keeps_state', 'Dlis.Obligations.convs_eq']
+            'Dlis.C12.rejected_assignment_keeps_state', 'Dlis.Obligations.convs_eq',
+            'Dlis.C12.rejects_incomplete_logical_file', 'Dlis.C12.rejects_shared_set', 'Dlis.C12.rejects_foreign_reference']
 
 
 def first(spec, kind):
@@ -291,6 +292,44 @@ def defects():
     return D
 
 
+def shared_set_stream(chk, tier, tmp):
+    """a set (type, name) used with objects by two of 2..4 logical files - adjacent or not, the others using names of
+    their own: one set object would be written into both, holding the objects of both, so the specification cannot be
+    represented and `write` must raise"""
+    import numpy as np
+    from dliswriter import DLISFile
+    R = rng('C12', 'shared-sets')
+    kinds = [('add_zone', {}), ('add_axis', {}), ('add_parameter', {}), ('add_equipment', {}), ('add_comment', {}),
+             ('add_long_name', {})]
+    for i in range(40 if tier == 'quick' else 400):
+        n_lf = R.choice([2, 3, 3, 4, 4])
+        a = R.randrange(n_lf - 1)
+        b = R.randrange(a + 1, n_lf)
+        meth, kw = R.choice(kinds)
+        shared_name = R.choice([None, 'SHARED'])
+        control = (i % 5 == 4)            # the same layout with a name of its own in every logical file: must be written
+
+        def go():
+            df = DLISFile(set_identifier='SHS')
+            for k in range(n_lf):
+                lf = df.add_logical_file(fh_id=f'LF{k}', fh_sequence_number=k + 1)
+                lf.add_origin(f'O{k}', set_name=f'S{k}', file_set_number=1, creation_time='2020/01/01 00:00:00')
+                ch = lf.add_channel('DEPTH', set_name=f'S{k}', data=np.arange(3, dtype=np.float64) + k)
+                lf.add_frame('MAIN', set_name=f'S{k}', channels=[ch])
+                sn = shared_name if (k in (a, b) and not control) else f'OWN{k}'
+                getattr(lf, meth)(f'X{k}', **({} if sn is None else {'set_name': sn}), **kw)
+            df.write(f'{tmp}/shs.dlis', output_chunk_size=2**20)
+        st, err = call(go)
+        case = {'logical_files': n_lf, 'sharing': None if control else [a, b], 'object': meth, 'set_name': shared_name}
+        chk.case('shared-sets', nontrivial_key=('shs', i), sample=dict(case, write=st))
+        chk.count(f'shared-sets:{"control" if control else "shared"}:{st}')
+        if control and st != 'ok':
+            chk.fail('valid-spec-not-writable:own-set-names', case, f'write raises {err}')
+        if not control and st == 'ok':
+            chk.fail('accepts-unrepresentable:shared-set', case,
+                     f'logical files {a} and {b} use one set with objects of both and the file is written')
+
+
 def run(tier):
     chk = Check('C12', tier)
     chk.rule = ('valid specifications with one injected defect from a catalogue of ~30 (row-count mismatches incl. length-1 '
@@ -370,6 +409,10 @@ def run(tier):
         if bres.ok:
             from harness.props import c07
             c07.cross_reference_stream(chk, model, tier, prop='C12')
+        shared_set_stream(chk, tier, tmp)
+        # what `write` answers (written, or which of its checks refuses) vs `acceptWrite` of Model/Checks.lean
+        from harness.props import c07 as _c07
+        _c07.reference_histories(chk, model, bres, tier, 'C12')
     finally:
         shutil.rmtree(tmp, ignore_errors=True)
     return finish(chk, bres, THEOREMS,
